@@ -135,6 +135,19 @@ pub fn generate(args: &Args, out: &mut Out) {
     }
     // 2. deep nesting in child processes
     let depths: &[usize] = if full { &[1000, 10000, 100000, 1000000, 2000000] } else { &[1000, 100000, 1000000] };
+    // long (not deep) documents: a run of d whitespace characters, string characters, escapes,
+    // digits, array items, entries with one key -- optimised and unoptimised child
+    for shape in ["ws_run", "ws_run_open", "long_string", "long_string_open", "long_number", "long_number_bad", "wide_arr", "wide_obj"] {
+        let lens: &[usize] = if full { &[1, 100, 1000, 100000, 1000000] } else { &[1, 1000, 100000] };
+        for &d in lens {
+            out.case(|| format!("d {shape} {d} 0 str"));
+            out.case(|| format!("dd {shape} {d} 0 str"));
+            if d == 1000 {
+                out.case(|| format!("d {shape} {d} 3 slice"));
+                out.case(|| format!("dd {shape} {d} 3 slice"));
+            }
+        }
+    }
     let shapes = ["arr", "arr_open", "obj", "obj_open", "mixed", "mixed_open", "wide_deep", "arr_garbage", "obj_garbage", "arr_sibling"];
     for shape in shapes {
         for &d in depths {
